@@ -503,6 +503,28 @@ func (r *runner) compileExpr(id, text, family string, vars map[string]string, ex
 	return ei, nil
 }
 
+// dualOrder (auto-yield worker, C05): a program whose result does not expose
+// member order - everything but family "mapord" - is evaluated once more
+// with every map loop of the library running in the opposite order; two
+// values that differ mean the outcome depends on Go map iteration order,
+// i.e. differs from one evaluation to the next in the shipped library. Errors
+// are left out ("which of their errors is reported" is sanctioned).
+func (r *runner) dualOrder(res *Result, family, text, key string, ti, oi int, again func() string) {
+	if !AutoYield || r.prop != "C05" || family == "mapord" || family == "fail" || family == "" {
+		return
+	}
+	first := r.refs[key]
+	setMapOrder(!r.spec.MapDescending)
+	second := again()
+	setMapOrder(r.spec.MapDescending)
+	res.Probes["dual_order_references"]++
+	isVal := func(o string) bool { return !strings.HasPrefix(o, "error:") && !strings.HasPrefix(o, "panic:") && !strings.HasPrefix(o, "compile-error") }
+	if first != second && isVal(first) && isVal(second) {
+		r.report(res, Violation{Property: "C05", Class: "map-order-dependence", Oracle: "dual-order-reference", Key: family + "|" + text, Task: ti, Op: oi,
+			Detail: fmt.Sprintf("with map loops in one order: %s; in the opposite order: %s", clip(first, 200), clip(second, 200))})
+	}
+}
+
 // reference evaluates (text, doc, vars, exts) alone, on a freshly compiled
 // expression and freshly decoded inputs, right after a reset of the
 // process-wide state: the stateless reference model.
@@ -641,20 +663,21 @@ func Execute(spec *Spec, opt Options) *Result {
 	refPhase := func() {
 	if !usesRegistry && spec.Kind != "clock" { // clock values have no time-independent reference
 		type tmeta struct {
-			text string
-			vars map[string]string
-			exts bool
+			text   string
+			vars   map[string]string
+			exts   bool
+			family string
 		}
 		meta := map[string]tmeta{}
 		for _, es := range spec.Exprs {
-			meta[es.ID] = tmeta{es.Text, es.Vars, es.Exts}
+			meta[es.ID] = tmeta{es.Text, es.Vars, es.Exts, es.Family}
 		}
 		for ti, ops := range spec.Tasks {
 			pm := map[string]tmeta{}
-			for _, op := range ops {
+			for oi, op := range ops {
 				switch op.Kind {
 				case "compile":
-					pm[op.Expr] = tmeta{op.Text, op.Vars, op.Exts}
+					pm[op.Expr] = tmeta{op.Text, op.Vars, op.Exts, op.Family}
 				case "erebind":
 					// (generated for single-task histories only: the order of
 					// re-registrations and evaluations is the program order)
@@ -693,6 +716,10 @@ func Execute(spec *Spec, opt Options) *Result {
 					}
 					if _, done := r.refs[key]; !done {
 						r.refs[key], r.refStep[key] = r.reference(m.text, r.docs[op.Doc], vars, m.exts, op.Kind == "evalbytes")
+						r.dualOrder(res, m.family, m.text, key, ti, oi, func() string {
+							o, _ := r.reference(m.text, r.docs[op.Doc], vars, m.exts, op.Kind == "evalbytes")
+							return o
+						})
 					}
 					if f := op.Fault; f != nil && f.Kind != "abort" && op.Kind == "eval" {
 						fk := key + faultKey(f)
